@@ -150,7 +150,10 @@ dt_io_strfdt(
 	size_t res = dt_strfdt(buf, bsz, fmt, that);
 
 	if (LIKELY(res > 0) && apnd_ch && buf[res - 1] != apnd_ch) {
-		/* auto-newline */
+		/* auto-newline, in place of the last character if need be */
+		if (UNLIKELY(res >= bsz)) {
+			res = bsz - 1U;
+		}
 		buf[res++] = (char)apnd_ch;
 	}
 	return res;
